@@ -82,6 +82,38 @@ def directed_cases(rng):
     return cases
 
 
+def with_install(cases):
+    """Directed cases: every delivery that completes a transfer is followed by finishIncoming(True) unless it says otherwise."""
+    out = []
+    for cfg, evs, meta in cases:
+        evs2 = []
+        for e in evs:
+            e = dict(e)
+            if e["e"] == "deliver" and "fin" not in e:
+                e["fin"] = True
+            evs2.append(e)
+        out.append((cfg, evs2, meta))
+    return out
+
+
+def d70_cases(rng):
+    """D70: a complete transfer that is rejected (finishIncoming(False)) or whose load raises (no finishIncoming) leaves the
+    stored snapshot alone; a later accepted one replaces it."""
+    cases = []
+    for sm in MODES:
+        for rm in MODES:
+            cfg = {"sm": sm, "rm": rm, "sf": False, "rf": False, "sb": 3, "rb": 3}
+            d0, d1 = rand_bytes(rng, 5), rand_bytes(rng, 7)
+            own = [{"e": "rcvSerialize", "id": 2, "n": 2}, {"e": "rcvCheck"}]
+            whole = lambda fin: [{"e": "burst", "b": 100}] + [{"e": "deliver", "fin": fin}] * 5
+            cases.append((cfg, own + [{"e": "sndInstall", "d": sc.hx(d1)}] + whole(False) + whole(None) + whole(True),
+                          {"kind": "d70-reject-raise-install"}))
+            cases.append((cfg, own + [{"e": "sndInstall", "d": sc.hx(d0)}] + whole(None) +
+                          [{"e": "burst", "b": 2}, {"e": "deliver", "fin": True}, {"e": "rcvRestart", "c": True}] + whole(False),
+                          {"kind": "d70-raise-then-partial"}))
+    return cases
+
+
 def fork_cases():
     if not hasattr(os, "fork"):
         return []
@@ -121,7 +153,8 @@ def random_case(rng, unrepaired):
         elif x < 0.37:
             evs.append({"e": "burst", "b": rng.choice((1, 2, 3, 5, 1000))})
         elif x < 0.67:
-            evs.append({"e": "deliver"})
+            y = rng.random()
+            evs.append({"e": "deliver", "fin": True if y < 0.7 else (False if y < 0.9 else None)})
         elif x < 0.72:
             evs.append({"e": "reconnect", "c": (rng.random() < 0.5) if unrepaired else True})
         elif x < 0.75:
@@ -153,16 +186,20 @@ def random_case(rng, unrepaired):
 # ------------------------------------------------------------------------------------------------
 def run_real(sermod, workdir, cfg, evs, tag="l"):
     link = sc.RealLink(sermod, workdir, cfg["sm"], cfg["rm"], cfg["sf"], cfg["rf"], cfg["sb"], cfg["rb"], tag)
-    devs, steps = [], []
+    devs, steps, store_changes = [], [], []
     try:
-        for ev in evs:
+        for i, ev in enumerate(evs):
+            before = link.store("R")
             dev, out = link.do(dict(ev))
             devs.append(dev)
             st = link.state()
             st["out"] = out
             steps.append(st)
+            after = link.store("R")
+            if after != before:
+                store_changes.append([i, ev["e"], ev.get("fin"), out if ev["e"] == "deliver" else None, sc.hx(after)])
         info = {"held": [sc.hx(b) for b in link.held], "completed": [sc.hx(b) for b in link.completed],
-                "rcv_deser": None}
+                "rcv_deser": None, "store_changes": store_changes, "rcv_store": sc.hx(link.store("R"))}
         if link.completed:
             try:
                 info["rcv_deser"] = repr(link.R.deserialize())
@@ -187,11 +224,22 @@ def monitor(cfg, evs, meta, steps, info):
                                       "equal no snapshot the sender ever held (held sizes %s); mode %s->%s, chunk size %d"
                                       % (len(b) // 2, [len(h) // 2 for h in info["held"]], cfg["sm"], cfg["rm"], cfg["sb"])})
                 break
+    # D70: the follower's stored snapshot changes only through its own dump, a restart, or an accepted install of
+    # bytes the sender held
+    for i, e, fin, out, after in info.get("store_changes", []):
+        ok = e in ("rcvSerialize", "rcvChildRun", "rcvRestart") or \
+            (e == "deliver" and fin is True and out and out[0] is True and (meta.get("unrepaired") or after in set(info["held"])))
+        if not ok:
+            viols.append({"signature": "serializer.store:changed-without-install",
+                          "what": "the follower's stored snapshot changed at event %d (%s, finishIncoming argument %s, returned %s) "
+                                  "although it neither wrote a dump of its own nor installed a received snapshot the sender held; "
+                                  "mode %s->%s" % (i, e, fin, out, cfg["sm"], cfg["rm"])})
+            break
     if meta.get("kind") in ("whole", "whole-serialized"):
-        rets = [s["out"] for s, e in zip(steps, evs) if e["e"] == "deliver" and s["out"] is not None]
+        rets = [s["out"][0] for s, e in zip(steps, evs) if e["e"] == "deliver" and s["out"] is not None]
         ok = rets.count(True) == 1 and rets and rets[-1] is True
         if meta.get("expect") is not None:
-            ok = ok and info["completed"] == [meta["expect"]]
+            ok = ok and info["completed"] == [meta["expect"]] and info["rcv_store"] == meta["expect"]
         if meta.get("expect_data") is not None:
             ident, n = meta["expect_data"]
             ok = ok and info["rcv_deser"] == repr(sc.mk_data(ident, n, False))
@@ -290,7 +338,7 @@ def run(ctx):
     sermod = sc.load(ctx.repo)
     workdir = ctx.tmpdir()
     rng = ctx.rng("serializer.chunks")
-    cases = load_corpus(ctx) + directed_cases(rng) + fork_cases()
+    cases = with_install(load_corpus(ctx) + directed_cases(rng) + fork_cases()) + d70_cases(rng)
     nrand = ctx.scale(500, 20000)
     for i in range(nrand):
         cases.append(random_case(rng, unrepaired=(i % 4 == 3)))
@@ -327,7 +375,9 @@ def run(ctx):
                     sk = "full" if n == cfg["sb"] else "short"
                     cov["size_class"][sk] = cov["size_class"].get(sk, 0) + 1
             if e["e"] == "deliver":
-                k = {None: "empty-channel", True: "completed", False: "not-complete"}[s["out"]]
+                o = s["out"]
+                k = "empty-channel" if o is None else ("not-complete" if not o[0] else
+                                                       "completed/" + {True: "install", False: "reject", None: "load-raises"}[e.get("fin")])
                 cov["deliver"][k] = cov["deliver"].get(k, 0) + 1
             if e["e"] in ("check", "rcvCheck"):
                 cov["status"][s["out"][0]] = cov["status"].get(s["out"][0], 0) + 1
@@ -361,7 +411,7 @@ def run(ctx):
            "disagreements": disagreements, "violations": viols, "wall_s": round(time.time() - t0, 2)}
     # coverage floors (met by the directed part on an unchanged tree)
     need = [("chunk_flags", k) for k in ("F-", "--", "-L/empty", "FL/empty", "None")] + \
-           [("deliver", k) for k in ("completed", "not-complete")] + \
+           [("deliver", k) for k in ("completed/install", "completed/reject", "completed/load-raises", "not-complete")] + \
            [("events", k) for k in ("reconnect", "cancel", "serialize", "check", "sndInstall", "rcvRestart", "sendOther")] + \
            [("status", k) for k in ("success", "failed", "notSerializing")]
     missing = [("%s.%s" % (a, b)) for a, b in need if not cov[a].get(b)]
@@ -381,7 +431,7 @@ def search(ctx, unproved):
     rng = ctx.rng("serializer.chunks.search")
     out = []
     t0 = time.time()
-    cases = directed_cases(rng)
+    cases = with_install(directed_cases(rng)) + d70_cases(rng)
     while time.time() - t0 < ctx.scale(8, 120) and len(out) < 1:
         if cases:
             cfg, evs, meta = cases.pop(0)
